@@ -97,6 +97,20 @@ impl Runner {
         F: Fn(usize) + Sync,
     {
         let runner = Self::new(params, task_type, iter.try_get_len());
+        #[cfg(feature = "verif-hooks")]
+        crate::verif::run_begin(
+            runner.max_num_threads,
+            matches!(runner.chunk_size, ResolvedChunkSize::Exact(_)),
+            runner.chunk_size.inner(),
+            runner.input_len,
+        );
+        #[cfg(feature = "verif-hooks")]
+        let wrapped_task = |c: usize| {
+            let _guard = crate::verif::WorkerGuard::begin(c);
+            thread_task(c)
+        };
+        #[cfg(feature = "verif-hooks")]
+        let thread_task = &wrapped_task;
 
         let mut num_spawned = 0;
 
@@ -104,6 +118,12 @@ impl Runner {
             let mut chunk: usize = runner.chunk_size.inner();
             'lag_period: loop {
                 for _ in 0..LAG_PERIODICITY {
+                    #[cfg(feature = "verif-hooks")]
+                    crate::verif::spawner_point(
+                        crate::verif::SpawnerPoint::BeforeSpawnDecision,
+                        num_spawned,
+                        crate::verif::encode_has_more(iter.has_more()),
+                    );
                     match runner.do_spawn(num_spawned, iter.has_more()) {
                         false => break 'lag_period,
                         true => {
@@ -114,12 +134,24 @@ impl Runner {
                 }
 
                 lag();
+                #[cfg(feature = "verif-hooks")]
+                crate::verif::spawner_point(
+                    crate::verif::SpawnerPoint::AfterLag,
+                    num_spawned,
+                    crate::verif::encode_has_more(iter.has_more()),
+                );
                 match runner.next_chunk_size(num_spawned, iter.has_more()) {
                     None => break 'lag_period,
                     Some(c) => chunk = c,
                 }
             }
 
+            #[cfg(feature = "verif-hooks")]
+            crate::verif::spawner_point(
+                crate::verif::SpawnerPoint::BeforeFinalSpawn,
+                num_spawned,
+                crate::verif::encode_has_more(iter.has_more()),
+            );
             s.spawn(move || thread_task(chunk));
             num_spawned += 1;
         });
@@ -139,6 +171,20 @@ impl Runner {
         Out: Send + Sync,
     {
         let runner = Self::new(params, task_type, iter.try_get_len());
+        #[cfg(feature = "verif-hooks")]
+        crate::verif::run_begin(
+            runner.max_num_threads,
+            matches!(runner.chunk_size, ResolvedChunkSize::Exact(_)),
+            runner.chunk_size.inner(),
+            runner.input_len,
+        );
+        #[cfg(feature = "verif-hooks")]
+        let wrapped_task = |c: usize| {
+            let _guard = crate::verif::WorkerGuard::begin(c);
+            thread_task(c)
+        };
+        #[cfg(feature = "verif-hooks")]
+        let thread_task = &wrapped_task;
 
         let mut num_spawned = 0;
 
@@ -147,6 +193,12 @@ impl Runner {
             let mut chunk: usize = runner.chunk_size.inner();
             'lag_period: loop {
                 for _ in 0..LAG_PERIODICITY {
+                    #[cfg(feature = "verif-hooks")]
+                    crate::verif::spawner_point(
+                        crate::verif::SpawnerPoint::BeforeSpawnDecision,
+                        num_spawned,
+                        crate::verif::encode_has_more(iter.has_more()),
+                    );
                     match runner.do_spawn(num_spawned, iter.has_more()) {
                         false => break 'lag_period,
                         true => {
@@ -157,12 +209,24 @@ impl Runner {
                 }
 
                 lag();
+                #[cfg(feature = "verif-hooks")]
+                crate::verif::spawner_point(
+                    crate::verif::SpawnerPoint::AfterLag,
+                    num_spawned,
+                    crate::verif::encode_has_more(iter.has_more()),
+                );
                 match runner.next_chunk_size(num_spawned, iter.has_more()) {
                     None => break 'lag_period,
                     Some(c) => chunk = c,
                 }
             }
 
+            #[cfg(feature = "verif-hooks")]
+            crate::verif::spawner_point(
+                crate::verif::SpawnerPoint::BeforeFinalSpawn,
+                num_spawned,
+                crate::verif::encode_has_more(iter.has_more()),
+            );
             handles.push(s.spawn(move || thread_task(chunk)));
             num_spawned += 1;
 
@@ -188,6 +252,20 @@ impl Runner {
         R: Fn(T, T) -> T,
     {
         let runner = Self::new(params, task_type, iter.try_get_len());
+        #[cfg(feature = "verif-hooks")]
+        crate::verif::run_begin(
+            runner.max_num_threads,
+            matches!(runner.chunk_size, ResolvedChunkSize::Exact(_)),
+            runner.chunk_size.inner(),
+            runner.input_len,
+        );
+        #[cfg(feature = "verif-hooks")]
+        let wrapped_task = |c: usize| {
+            let _guard = crate::verif::WorkerGuard::begin(c);
+            thread_task(c)
+        };
+        #[cfg(feature = "verif-hooks")]
+        let thread_task = &wrapped_task;
 
         std::thread::scope(|s| {
             let mut threads = Vec::with_capacity(runner.max_num_threads);
@@ -195,6 +273,12 @@ impl Runner {
             let mut chunk: usize = runner.chunk_size.inner();
             'lag_period: loop {
                 for _ in 0..LAG_PERIODICITY {
+                    #[cfg(feature = "verif-hooks")]
+                    crate::verif::spawner_point(
+                        crate::verif::SpawnerPoint::BeforeSpawnDecision,
+                        threads.len(),
+                        crate::verif::encode_has_more(iter.has_more()),
+                    );
                     match runner.do_spawn(threads.len(), iter.has_more()) {
                         false => break 'lag_period,
                         true => threads.push(s.spawn(move || thread_task(chunk))),
@@ -202,12 +286,24 @@ impl Runner {
                 }
 
                 lag();
+                #[cfg(feature = "verif-hooks")]
+                crate::verif::spawner_point(
+                    crate::verif::SpawnerPoint::AfterLag,
+                    threads.len(),
+                    crate::verif::encode_has_more(iter.has_more()),
+                );
                 match runner.next_chunk_size(threads.len(), iter.has_more()) {
                     None => break 'lag_period,
                     Some(c) => chunk = c,
                 }
             }
 
+            #[cfg(feature = "verif-hooks")]
+            crate::verif::spawner_point(
+                crate::verif::SpawnerPoint::BeforeFinalSpawn,
+                threads.len(),
+                crate::verif::encode_has_more(iter.has_more()),
+            );
             threads.push(s.spawn(move || thread_task(chunk)));
 
             let num_threads = threads.len();
@@ -234,4 +330,111 @@ fn lag() {
     }
 
     assert!(black_box(fibonacci(1 << 16)) > 0);
+}
+
+/// Thin public wrappers around the private settings logic, for the verification harness.
+#[cfg(feature = "verif-hooks")]
+#[allow(missing_docs)]
+pub mod verif_exports {
+    use super::*;
+    use crate::{ChunkSize, NumThreads};
+
+    pub const LAG_PERIODICITY: usize = super::LAG_PERIODICITY;
+
+    #[derive(Clone, Copy, Debug, PartialEq, Eq)]
+    pub struct RunnerView {
+        pub input_len: Option<usize>,
+        pub max_num_threads: usize,
+        pub chunk_is_exact: bool,
+        pub chunk: usize,
+    }
+
+    fn task_of(task: u8) -> ParTask {
+        match task {
+            0 => ParTask::Collect,
+            1 => ParTask::EarlyReturn,
+            _ => ParTask::Reduce,
+        }
+    }
+
+    fn has_more_of(code: u8, remaining: usize) -> HasMore {
+        match code {
+            0 => HasMore::No,
+            1 => HasMore::Maybe,
+            _ => HasMore::Yes(remaining),
+        }
+    }
+
+    fn runner_of(view: RunnerView) -> Runner {
+        Runner {
+            _task: ParTask::Collect,
+            input_len: view.input_len,
+            max_num_threads: view.max_num_threads,
+            chunk_size: match view.chunk_is_exact {
+                true => ResolvedChunkSize::Exact(view.chunk),
+                false => ResolvedChunkSize::Min(view.chunk),
+            },
+        }
+    }
+
+    /// `Runner::new` with the machine's `available_parallelism`.
+    pub fn runner_new(params: Params, task: u8, input_len: Option<usize>) -> RunnerView {
+        let r = Runner::new(params, task_of(task), input_len);
+        RunnerView {
+            input_len: r.input_len,
+            max_num_threads: r.max_num_threads,
+            chunk_is_exact: matches!(r.chunk_size, ResolvedChunkSize::Exact(_)),
+            chunk: r.chunk_size.inner(),
+        }
+    }
+
+    pub fn do_spawn(view: RunnerView, num_spawned: usize, has_more: u8, remaining: usize) -> bool {
+        runner_of(view).do_spawn(num_spawned, has_more_of(has_more, remaining))
+    }
+
+    pub fn next_chunk_size(
+        view: RunnerView,
+        num_spawned: usize,
+        has_more: u8,
+        remaining: usize,
+    ) -> Option<usize> {
+        runner_of(view).next_chunk_size(num_spawned, has_more_of(has_more, remaining))
+    }
+
+    /// `calc_chunk_size`; returns (is_exact, value).
+    pub fn calc_chunk_size(
+        task: u8,
+        input_len: Option<usize>,
+        max_num_threads: usize,
+        chunk_size: ChunkSize,
+    ) -> (bool, usize) {
+        let r = chunk_size::calc_chunk_size(task_of(task), input_len, max_num_threads, chunk_size);
+        (matches!(r, ResolvedChunkSize::Exact(_)), r.inner())
+    }
+
+    /// `calc_num_threads` with an injectable `available_parallelism` (`None` = the call failed).
+    pub fn calc_num_threads(
+        input_len: Option<usize>,
+        num_threads: NumThreads,
+        available: Option<usize>,
+    ) -> usize {
+        num_threads::verif_calc_num_threads(input_len, num_threads, available)
+    }
+
+    pub fn constants() -> [usize; 4] {
+        [
+            LAG_PERIODICITY,
+            chunk_size::VERIF_INITIAL_CHUNK_SIZE,
+            chunk_size::VERIF_DESIRED_MIN_CHUNK_SIZE,
+            num_threads::VERIF_MAX_UNSET_NUM_THREADS,
+        ]
+    }
+
+    pub fn min_required_len(task: u8, one_round_len: usize) -> usize {
+        chunk_size::verif_min_required_len(task_of(task), one_round_len)
+    }
+
+    pub fn div_ceil(number: usize, divider: usize) -> usize {
+        crate::core::runner_settings::verif_div_ceil(number, divider)
+    }
 }
